@@ -16,7 +16,11 @@ RULE = (
     "checksum type x PDU CRC x entity-id widths x seq width x NAK mode x destination shape x pacing "
     "(+ metadata-only requests); quick: corner cells + seeded random cells, thorough: complete product of the "
     "core dimensions with the remaining dimensions rotated + random cells.  A case is non-trivial when the transfer "
-    "ran to quiescence with at least 2 PDUs delivered; distinct = distinct (configuration, pacing) cells"
+    "ran to quiescence with at least 2 PDUs delivered; distinct = distinct (configuration, pacing) cells.  Random cells also draw: sequence numbers "
+    "which need the provider's full width, a receiver-side configuration which disagrees with the PDUs, a refused put request towards a third entity "
+    "during the transfer, slow entities (up to 1.5 s of virtual time before every call, retry intervals far longer than the transfer).  Sequence cases = "
+    "2-3 consecutive requests (empty / small / multi-segment / metadata-only) on one handler pair, with refused requests before a valid one, "
+    "re-tuned timers and a slow last transfer; an EOF reaching a closed transaction on this perfect link is a violation"
 )
 ASSUMPTIONS = [
     "link delivers every PDU once and in order as bytes, re-parsed with spacepackets PduFactory (+ documented EOF condition-code shim)",
